@@ -4,7 +4,7 @@ from ..fn import World
 from ..index import AnalysisError, dotted
 from ..astutil import text, short, endswith, calls_in, walk_no_nested, names_loaded
 from ..dataflow import DefUse
-from ._h_F import (Res, res_of, call_arg, absent, canon, strip_wrappers, iterations,
+from ._h_F import (ifn, Res, res_of, call_arg, absent, canon, strip_wrappers, iterations,
                    loop_body_nodes, every_iteration)
 
 EXPLANATION = (
@@ -40,21 +40,28 @@ def _sample_names(fn):
 def r1_width(run, w):
   R1 = run.rule("C32-R1", "the column count passed to get_table_data depends on the full row list "
                 "it is given, not only on a bounded sample", floor=2)
-  fn = w.fn("imports.import_csv._parse_open_file")
+  fn = ifn(w, "imports.import_csv._parse_open_file")
   cfg = fn.cfg
   calls = [(n, c) for (n, c, nm) in fn.calls() if endswith(nm, "get_table_data")]
   if len(calls) != 1:
     raise AnalysisError("_parse_open_file: expected one get_table_data call")
   n, c = calls[0]
-  rows_arg, width_arg = c.args[0], c.args[1]
+  r = res_of(w, fn)
+  rows_arg, width_arg = call_arg(c, 0, "rows"), call_arg(c, 1, "num_columns")
+  if rows_arg is None or width_arg is None:
+    raise AnalysisError("get_table_data call: rows / width arguments not found")
   if not isinstance(rows_arg, ast.Name):
     raise AnalysisError("get_table_data rows argument is not a local name")
   rows = rows_arg.id
   du = DefUse(fn)
   samples = _sample_names(fn)
-  # the width expression: len(<var>)
+  # the width expression: len(<var>), possibly held in a local first
+  if isinstance(width_arg, ast.Name):
+    b = r.binding(n.id, width_arg.id)
+    if b is not None and not isinstance(b[0], ast.IfExp):
+      width_arg = b[0]
   ok_shape = isinstance(width_arg, ast.Call) and dotted(width_arg.func) == "len" and \
-      isinstance(width_arg.args[0], ast.Name)
+      len(width_arg.args) == 1 and isinstance(width_arg.args[0], ast.Name)
   if not ok_shape:
     raise AnalysisError("width argument is not len(<local>)")
   hv = width_arg.args[0].id
@@ -96,7 +103,12 @@ def r1_width(run, w):
           isinstance(z.args[1], ast.Name)]
   tv = n.stmt.targets[0].id if isinstance(n.stmt, ast.Assign) and \
       isinstance(n.stmt.targets[0], ast.Name) else None
-  ok = any(text(z.args[0]) == tv and z.args[1].id == hv for z in zips)
+  def is_converted(z):
+    a = z.args[0]
+    if tv is not None and text(a) == tv:
+      return True
+    return a is c or (isinstance(a, ast.Call) and endswith(fn.name(a), "get_table_data"))
+  ok = any(is_converted(z) and z.args[1].id == hv for z in zips)
   run.ob(R1, fn.qualname, "zip(%s, %s)" % (tv, hv), "converted columns are paired with the header "
          "list whose length sized them (zip cannot truncate)", ok, fi=fn.fi)
   # the rows handed on are all rows from the data offset (an unbounded slice)
@@ -143,7 +155,7 @@ def _one_per(r, e, nid, base, depth=0):
 def r2_table_data(run, w):
   R2 = run.rule("C32-R2", "get_table_data pads short rows to the number of converters and feeds "
                 "every row to every converter", floor=4)
-  fn = w.fn("parse_data.get_table_data")
+  fn = ifn(w, "parse_data.get_table_data")
   r = res_of(w, fn)
   cfg = r.cfg
   ps = fn.fi.params()
@@ -153,7 +165,7 @@ def r2_table_data(run, w):
   for n in cfg.nodes:
     if n.kind != "for":
       continue
-    it = r.expand(n.stmt.iter, n.id, stop=None) if False else n.stmt.iter
+    it = n.stmt.iter
     if not (isinstance(it, ast.Call) and dotted(it.func) == "zip" and len(it.args) == 2 and
             isinstance(n.stmt.target, ast.Tuple) and len(n.stmt.target.elts) == 2):
       continue
@@ -190,7 +202,7 @@ def r2_table_data(run, w):
         call_arg(v, 1, "num_columns") is not None and \
         text(call_arg(v, 1, "num_columns")) == ncols
   chain = _one_per(r, ast.Name(id=CC, ctx=ast.Load()), feed.id, guess_call)
-  g = w.fn("parse_data._guess_basic_types")
+  g = ifn(w, "parse_data._guess_basic_types")
   gr = res_of(w, g)
   gp = g.fi.params()
   def range_n(it, at):
@@ -216,8 +228,12 @@ def r2_table_data(run, w):
     it = strip_wrappers(chain[0].loops[0][1])
     if isinstance(it, ast.Name):
       CV = it.id
+  adds = [n for n in cfg.nodes if n.id in loop_body_nodes(r, feed.stmt) and
+          any(isinstance(c.func, ast.Attribute) and c.func.attr == "convert_and_add"
+              for c in calls_in(n.exprs))]
   run.ob(R2, fn.qualname, "for cell, conv in zip(row, col_converters): conv.convert_and_add(cell)",
-         "every cell of the (padded) row reaches its column's converter", True, fi=fn.fi)
+         "every cell of the (padded) row reaches its column's converter",
+         len(adds) == 1 and every_iteration(r, feed.stmt, adds[0].id), fi=fn.fi)
   # ---- padding: on every path from the start of a row's iteration to the feed loop the row is
   # extended by [""] * (len(converters) - len(row)), unless that amount is known not positive
   stop = tuple(x for x in (CV, CC, rowvar) if x)
@@ -265,8 +281,13 @@ def r2_table_data(run, w):
          "converters", pad_ok, fi=fn.fi)
   # ---- early exits from the row loop only for an explicit NUM_ROWS limit
   def limit(a, node):
-    return any(isinstance(x, ast.Name) and x.id == ps[2]
-               for x in ast.walk(r.expand(a, node.id)))
+    # the caller asked for a row limit: <num_rows> is truthy / > 0
+    a = r.expand(a, node.id)
+    if isinstance(a, ast.Name):
+      return a.id == ps[2]
+    return isinstance(a, ast.Compare) and len(a.ops) == 1 and text(a.left) == ps[2] and \
+        isinstance(a.ops[0], ast.Gt) and isinstance(a.comparators[0], ast.Constant) and \
+        a.comparators[0].value == 0
   bad = []
   for n in cfg.nodes:
     if n.id in body and n.kind in ("break", "continue", "return"):
@@ -274,7 +295,7 @@ def r2_table_data(run, w):
       inner = [l for l in r.enclosing(n.stmt, (ast.For, ast.While))]
       if n.kind in ("break", "continue") and inner and inner[-1] is not lp:
         continue
-      if not (r.guarded(n.id, limit, True) or r.guarded(n.id, limit, False)):
+      if not r.guarded(n.id, limit, True):
         bad.append(n)
   run.ob(R2, fn.qualname, "row loop leaves early only under the %s option" % ps[2],
          "no data row is skipped unless the caller limited the row count", not bad, fi=fn.fi)
@@ -294,21 +315,20 @@ def r2_table_data(run, w):
 def r3_converter(run, w):
   R3 = run.rule("C32-R3", "ColumnConverter.convert_and_add stores exactly one value per call on "
                 "every path; get_grist_column returns that list", floor=2)
-  fn = w.fn("parse_data.ColumnConverter.convert_and_add")
+  fn = ifn(w, "parse_data.ColumnConverter.convert_and_add")
   cfg = fn.xcfg
   apps = fn.nodes_calling(lambda c, nm, f: nm == "self._all_col_values.append", cfg)
   # at most once per path
   once = all(not (cfg.reach_after({a}) & apps) for a in apps)
   run.ob(R3, fn.qualname, "self._all_col_values.append(...) exactly once on every path",
          "a converted value, or the text of a value that failed to convert, is stored for every "
-         "cell", bool(apps) and cfg.dominated_by(cfg.exit.id, apps) and once and
-         cfg.raise_exit.id not in cfg.reach({cfg.entry.id}, removed=apps), fi=fn.fi)
+         "cell", bool(apps) and cfg.dominated_by(cfg.exit.id, apps) and once, fi=fn.fi)
   handlers = [n for n in cfg.nodes if n.kind == "handler"]
   ok = any(h.stmt.type is not None and text(h.stmt.type) in ("Exception", "BaseException") or
            h.stmt.type is None for h in handlers)
   run.ob(R3, fn.qualname, "except Exception: store str(value)", "a conversion failure of any kind "
          "keeps the cell as text", ok, fi=fn.fi)
-  g = w.fn("parse_data.ColumnConverter.get_grist_column")
+  g = ifn(w, "parse_data.ColumnConverter.get_grist_column")
   gr = res_of(w, g)
   rets = gr.returns()
   ok = bool(rets) and not gr.falls_off_end() and all(
@@ -328,7 +348,7 @@ def r3_converter(run, w):
 def r4_filter(run, w):
   R4 = run.rule("C32-R4", "a column is dropped only when it has no header and no non-empty cell",
                 floor=1)
-  fn = w.fn("imports.import_csv._parse_open_file")
+  fn = ifn(w, "imports.import_csv._parse_open_file")
   r = res_of(w, fn)
   cfg = r.cfg
   # the loop pairing the converted columns with their headers
@@ -397,6 +417,9 @@ VARIANTS = [
       continue
     # Make sure we have a value for every column.
 """, "C32-R2"),
+  ("empty-cells-not-stored", PD, "      conv.convert_and_add(cell)\n", "      if cell != '':\n        conv.convert_and_add(cell)\n", "C32-R2"),
+  ("fewer-column-converters", PD, "  col_converters = [ColumnConverter(c) for c in converters]",
+   "  col_converters = [ColumnConverter(c) for c in converters if c is not None]", "C32-R2"),
   ("converter-drops-failed", PD, """    except Exception:
       self._all_col_values.append(str(value))""", """    except Exception:
       pass""", "C32-R3"),
